@@ -9,7 +9,8 @@
    fuel-bounded recursion over the *suffix* of the packet starting at the loop index i
    (rest = pkt[i:]), which is the same loop: pkt[i] = hd rest, i+1 >= len(pkt) <-> tl rest = [],
    i+2+n > len(pkt) <-> n > length (tl (tl rest)).
-   [variant]: Defective = what /repo does today; Repaired = behaviour after fixes/C19_*.patch. *)
+   [variant]: Repaired = /repo HEAD (fixes e92fcd5, de0488c, b498cfb, c73561e, 35c2549 committed); Defective = the code
+   before those commits, kept only for the historical _refuted witnesses (the correspondence check uses Repaired only). *)
 From OV Require Import Common.Base.
 Open Scope N_scope.
 
@@ -197,7 +198,7 @@ Inductive policy := Keep | Drop | Replace.
 
 Definition opt_start : nat := 240.
 
-(* InsertOption82.  Today's code remembers only the LAST option 82 it saw; the repaired code
+(* InsertOption82.  Before e92fcd5 the code remembered only the LAST option 82 it saw (Defective); HEAD
    removes every one. *)
 Definition insert_option82 (v : variant) (pkt opt82 : bytes) (pol : policy) : result bytes :=
   if (length pkt <? opt_start)%nat then Ok pkt
@@ -215,7 +216,7 @@ Definition insert_option82 (v : variant) (pkt opt82 : bytes) (pol : policy) : re
     | Replace => Ok replace
     end.
 
-(* StripOption82: today's code removes the FIRST option 82 only. *)
+(* StripOption82: before e92fcd5 only the FIRST option 82 was removed (Defective); HEAD removes all. *)
 Definition strip_option82 (v : variant) (pkt : bytes) : result bytes :=
   if (length pkt <? opt_start)%nat then Ok pkt
   else
@@ -311,7 +312,7 @@ Definition get_option4 (pkt : bytes) (code : N) : result (option bytes) :=
   | None => Ok None
   end.
 
-(* RewriteForProxy; clientLease*7/8 is evaluated in uint32 today *)
+(* RewriteForProxy; before b498cfb clientLease*7/8 was evaluated in uint32 (Defective); HEAD uses uint64 *)
 Definition t2_of (v : variant) (lease : N) : N :=
   match v with Defective => u32n (lease * 7) / 8 | Repaired => lease * 7 / 8 end.
 Definition rewrite_for_proxy (v : variant) (pkt : bytes) (server_id : option bytes) (lease : N) : result bytes :=
@@ -327,7 +328,7 @@ Definition increment_hops (pkt : bytes) : bytes :=
   if (3 <? length pkt)%nat then overwrite pkt 3 [(nth 3 pkt 0 + 1) mod 256] else pkt.
 
 (* ------------------------------------------------------------------ plugins/dhcp4/local/provider.go *)
-(* optionWriter.addByte: today the length byte is uint8(len(data)); repaired: RFC 3396 split *)
+(* optionWriter.addByte: before 35c2549 the length byte was uint8(len(data)) (Defective); HEAD: RFC 3396 split *)
 Fixpoint add_opt_split (fuel : nat) (code : N) (data : bytes) : bytes :=
   match fuel with
   | O => [code; blen data mod 256] ++ data
